@@ -34,6 +34,16 @@ var mediumShape = map[string]shape{
 	"csv":   {[]int{3, 2, 3, 2}, 560},
 }
 
+// outputs of 19-20 KiB, every chunk larger than the buffer: the stream is written
+// to while each of the four chunks is handed over, so that a fault can strike
+// while up to three later chunks wait in the re-sequencing buffer
+var largeShape = map[string]shape{
+	"fasta": {[]int{2, 2, 2, 2}, 2400},
+	"fastq": {[]int{2, 2, 2, 2}, 1200},
+	"json":  {[]int{2, 2, 2, 2}, 2400},
+	"csv":   {[]int{2, 2, 2, 2}, 2400},
+}
+
 var arrivals3 = [][]int{{0, 1, 2}, {2, 1, 0}, {1, 0, 2}, {0, 2, 1}}
 
 // for 4 batches: in order; all buffered then drained; alternating; last-first
@@ -222,6 +232,38 @@ func TestEnumAboveBuffer(t *testing.T) {
 				}
 			}
 			cases = append(cases, closeCases(w, sh, arrivals4, z)...)
+		}
+	}
+	// sampled offsets of the 20 KiB outputs
+	for wi, w := range writers {
+		sh := largeShape[w]
+		for zi, z := range []bool{false, true} {
+			base := fcase{Writer: w, Sizes: sh.Sizes, Arrival: arrivals4[0], SeqLen: sh.SeqLen, Gzip: z, Close: true, Workers: 1}
+			size := refLen(base)
+			mk := func(k int, a []int, kind string, cl bool) {
+				c := base
+				c.Arrival, c.Fault, c.Close, c.K = a, kind, cl, int64(k)
+				cases = append(cases, c)
+			}
+			if evid.Thorough() {
+				for i, k := range keyOffsets(base, max(1, size/256)) {
+					r := i + wi + zi
+					for ai, a := range arrivals4 {
+						mk(k, a, writeKinds[(r+ai)%3], ((r+ai)/3)%2 == 0)
+					}
+				}
+				for _, k := range keyOffsets(base, 0) {
+					for _, x := range cb {
+						mk(k, x.Arrival, x.Kind, x.Close)
+					}
+				}
+			} else {
+				for i, k := range keyOffsets(base, max(1, size/12)) {
+					r := i + wi*5 + zi*3
+					mk(k, buffered[r%3], writeKinds[r%3], (r/3)%2 == 0)
+					mk(k, arrivals4[(r+1)%5], writeKinds[(r+1)%3], (r/3)%2 == 1)
+				}
+			}
 		}
 	}
 	runEnum(t, cases)
